@@ -158,3 +158,129 @@ pub mod c20 {
         pub rc: Rc<u32>,
     }
 }
+
+pub mod util {
+    pub mod sync {
+        pub use inner::*;
+        pub mod inner {
+            use std::{cell::RefCell, rc::Rc};
+            pub struct RefCount<T>(pub Rc<RefCell<T>>);
+            pub type Ref<'a, T> = std::cell::Ref<'a, T>;
+            pub type RefMut<'a, T> = std::cell::RefMut<'a, T>;
+            impl<T> RefCount<T> {
+                pub fn new(inner: T) -> Self {
+                    Self(Rc::new(RefCell::new(inner)))
+                }
+                pub fn get(&self) -> Ref<'_, T> {
+                    self.0.borrow()
+                }
+                pub fn get_mut(&self) -> RefMut<'_, T> {
+                    self.0.borrow_mut()
+                }
+            }
+        }
+    }
+}
+
+pub mod c05 {
+    use crate::util::sync::RefCount;
+
+    pub struct Obj {
+        pub v: u32,
+        pub idx: usize,
+    }
+
+    // R2 positive: write guard requested while a read guard of the same type is live
+    pub fn conflict_direct(a: &RefCount<Obj>, b: &RefCount<Obj>) -> u32 {
+        let r = a.get();
+        let mut w = b.get_mut();
+        w.v += r.v;
+        w.v
+    }
+
+    fn reads(o: &RefCount<Obj>) -> u32 {
+        o.get().v
+    }
+
+    // R2 positive: callee acquires a read guard while the caller holds a write guard
+    pub fn conflict_call(a: &RefCount<Obj>, b: &RefCount<Obj>) -> u32 {
+        let mut w = a.get_mut();
+        w.v = reads(b);
+        w.v
+    }
+
+    // R2 positive: closure handed to an adaptor acquires W while R is live
+    pub fn conflict_closure(a: &RefCount<Obj>, all: &[RefCount<Obj>]) {
+        let r = a.get();
+        all.iter().for_each(|o| o.get_mut().v = r.v);
+    }
+
+    // R2 negative: sequential scopes
+    pub fn ok_sequential(a: &RefCount<Obj>, b: &RefCount<Obj>) -> u32 {
+        let v = a.get().v;
+        b.get_mut().v = v;
+        let x = {
+            let r = a.get();
+            r.v
+        };
+        let mut w = a.get_mut();
+        w.v = x;
+        w.v
+    }
+
+    // R1 positive: f32 accumulator without progress guard
+    pub fn f32_stall(start: i32, end: i32, spacing: f32) -> usize {
+        let end = end as f32;
+        let mut time = start as f32;
+        let mut count = 0;
+        while time <= end {
+            time += spacing;
+            count += 1;
+        }
+        count
+    }
+
+    // R1 negative: same loop with a progress guard
+    pub fn f32_guarded(start: i32, end: i32, spacing: f32) -> usize {
+        let end = end as f32;
+        let mut time = start as f32;
+        let mut count = 0;
+        while time <= end {
+            let next = time + spacing;
+            if next <= time {
+                break;
+            }
+            time = next;
+            count += 1;
+        }
+        count
+    }
+
+    // R1 negative: f64 accumulator, and integer-bounded float loop
+    pub fn f64_acc(end: f64, step: f64) -> usize {
+        let mut t = step;
+        let mut n = 0;
+        while t < end {
+            t += step;
+            n += 1;
+        }
+        n
+    }
+
+    // R1 positive: shrink loop whose start value is not known to be finite
+    pub fn shrink_unknown(mut x: f32) -> f32 {
+        while x > 100.0 {
+            x /= 2.0;
+        }
+        x
+    }
+
+    // R1 negative: shrink loop from an integer
+    pub fn shrink_int(n: i32) -> f32 {
+        let mut x = n as f32;
+        while x > 100.0 {
+            x /= 2.0;
+        }
+        x
+    }
+}
